@@ -5,17 +5,22 @@ from fractions import Fraction
 
 import numpy as np
 
-from common import Ctx, LeanDriver, Property, close, err_kind, frac, list_s, listlist_s, rat_s, run_property
+import json
+
+from common import Ctx, LeanDriver, Property, close, err_kind, frac, jsonable, list_s, listlist_s, rat_s, run_property
 
 AXIS_KINDS = ["ordinal", "nonlinear", "scan", "linear", "positions", "unknown"]
 
 
-def rand_partition(rng, s):
+def rand_partition(rng, s, zeros=False):
+    """random chunk sizes summing to s; with `zeros`, zero-size chunks (legal for validate_chunks) are inserted sometimes"""
     out = []
     while s > 0:
         c = rng.randint(1, s)
         out.append(c)
         s -= c
+    if zeros and rng.random() < 0.3:
+        out.insert(rng.randint(0, len(out)), 0)
     return out
 
 
@@ -74,6 +79,13 @@ def build(case):
         return abtem.CTF(energy=100e3, semiangle_cutoff=20, **kw)
     if k == "fp":
         return abtem.FrozenPhonons(atoms(), num_configs=case["n"], sigmas=0.1, seed=tuple(case["seed0"] + 7 * i for i in range(case["n"])))
+    if k == "atoms_ensemble":
+        traj = []
+        for i in range(case["n"]):
+            a = atoms()
+            a.positions[0, 0] += 0.01 * (i + 1)
+            traj.append(a)
+        return abtem.AtomsEnsemble(traj)
     if k in ("probe", "planewave"):
         kw = dict(energy=100e3, gpts=8, extent=4.0)
         if k == "planewave":
@@ -131,6 +143,8 @@ def members(e, line_ref=None):
     for idx in np.ndindex(*shape):
         d = []
         for i, a in enumerate(axes):
+            if isinstance(e, abtem.AtomsEnsemble):
+                continue  # block AtomsEnsembles carry `[UnknownAxis()] * n` placeholders by explicit code; members = configurations
             v = coords(a, shape[i])[idx[i]]
             if isinstance(scan, abtem.LineScan) and i >= len(shape) - npos and isinstance(v, (float, np.floating)):
                 v = float(v) + shift
@@ -139,6 +153,8 @@ def members(e, line_ref=None):
             d.append(("pos", _plain(tuple(pos[idx[len(shape) - npos:]]))))
         if isinstance(e, abtem.FrozenPhonons):
             d.append(("seed", int(e.seed[idx[0]])))
+        if isinstance(e, abtem.AtomsEnsemble):
+            d.append(("config", float(e.trajectory[idx[0]].positions[0, 0])))
         for i, dist in enumerate(dists):
             d.append(("dist", (float(np.asarray(dist.values)[idx[i]]), float(np.asarray(dist.weights)[idx[i]]))))
         if arr is not None:
@@ -182,7 +198,7 @@ def blocks_of(e, chunks, mode):
 # ----------------------------------------------------------------------------- case generators
 def gen_case(ctx: Ctx):
     rng = ctx.rng
-    k = rng.choice(["custom", "grid", "grid", "line", "ctf", "ctf", "fp", "probe", "probe", "planewave", "images", "images", "images"])
+    k = rng.choice(["custom", "grid", "grid", "line", "ctf", "ctf", "fp", "atoms_ensemble", "probe", "probe", "planewave", "images", "images", "images"])
     if k == "custom":
         c = dict(kind=k, n=rng.randint(1, 7), y0=rng.randint(0, 5))
         shape = [c["n"]]
@@ -192,13 +208,16 @@ def gen_case(ctx: Ctx):
         shape = c["gpts"]
     elif k == "line":
         c = dict(kind=k, n=rng.randint(1, 7), endpoint=rng.random() < 0.5, sampling=rng.choice([0.25, 0.5, 1.0, 0.3]),
-                 dir=rng.choice([[1.0, 0.0], [0.0, 1.0], [0.6, 0.8]]), start=[rng.choice([0.0, 0.5]), rng.choice([0.0, 1.0])])
+                 dir=rng.choice([[1.0, 0.0], [0.0, 1.0], [0.6, 0.8], [0.0, 0.0]]), start=[rng.choice([0.0, 0.5]), rng.choice([0.0, 1.0])])
         shape = [c["n"]]
     elif k == "ctf":
         c = dict(kind=k, ns=[rng.randint(1, 4) for _ in range(rng.randint(1, 3))])
         shape = c["ns"]
     elif k == "fp":
         c = dict(kind=k, n=rng.randint(1, 6), seed0=rng.randint(0, 1000))
+        shape = [c["n"]]
+    elif k == "atoms_ensemble":
+        c = dict(kind=k, n=rng.randint(1, 5))
         shape = [c["n"]]
     elif k == "planewave":
         c = dict(kind=k, ns=[rng.randint(1, 4)])
@@ -223,7 +242,8 @@ def gen_case(ctx: Ctx):
         shape = c["shape"]
     r = rng.random()
     if r < 0.7 or not shape:
-        c["chunks"] = [rand_partition(rng, s) for s in shape]
+        zeros = True  # zero-size chunks are legal for validate_chunks (C18); two partitioners do not support empty blocks (known findings)
+        c["chunks"] = [rand_partition(rng, s, zeros) for s in shape]
     elif r < 0.9:
         c["chunks"] = rng.randint(1, max(1, int(np.prod(shape))))
     else:
@@ -319,12 +339,13 @@ class C19(Property):
                 jobs.append((f"grid {rat_s(sc.start[0])} {rat_s(sc.sampling[0])} {list_s(cs)}", "GridScan._partition_args", c | dict(chunks=cs), impl, p_blocks))
             elif which == "line" and n > 0:
                 c = dict(kind="line", n=n, endpoint=rng.random() < 0.5, sampling=rng.choice([0.25, 0.5, 1.0, 0.3]),
-                         dir=rng.choice([[1.0, 0.0], [0.0, 1.0], [0.6, 0.8]]), start=[rng.choice([0.0, 0.5]), rng.choice([0.0, 1.0])])
+                         dir=rng.choice([[1.0, 0.0], [0.0, 1.0], [0.6, 0.8], [0.0, 0.0]]), start=[rng.choice([0.0, 0.5]), rng.choice([0.0, 1.0])])
                 sc = build(c)
                 bl = [b for b in sc._partition_args((tuple(cs),), lazy=False)[0]]
                 comp = rng.randint(0, 1)
                 direction = (np.array(sc.end) - np.array(sc.start))
-                direction = direction / np.linalg.norm(direction, axis=0)
+                nrm = np.linalg.norm(direction, axis=0)
+                direction = direction / nrm if nrm > 0 else direction
                 impl = ["ok", [[frac(b.start[comp]), frac(b.end[comp]), int(b.gpts)] for b in bl]]
                 if any(b.endpoint for b in bl):
                     impl = ["endpoint-set"]
@@ -367,7 +388,7 @@ class C19(Property):
         ctx.traces += len(jobs)
 
     # -- conformance: blocks reassemble to the original members; lazy == eager -------------------
-    def oracle(self, ctx: Ctx, c):
+    def oracle_inner(self, ctx: Ctx, c):
         e = build(c)
         kind = c["kind"] if c["kind"] != "images" else "array[" + ",".join(c["axes"]) + "]" + ("-lazy" if c.get("lazy") else "")
         chunks = chunks_arg(c)
@@ -412,11 +433,7 @@ class C19(Property):
         if results["eager"][0] != results["lazy"][0] or (results["eager"][0] == "ok" and not same(results["eager"][1], results["lazy"][1])):
             ctx.violation(f"{kind.split('[')[0]}-lazy-ne-eager-partition", c, {"eager": results["eager"][:2], "lazy": results["lazy"][:2]})
         elif results["eager"][0] == "err" and valid:
-            if c["kind"] == "grid" and c["endpoint"] and list(c["gpts"]) == [1, 1] and "extent must be positive" in results["eager"][2]:
-                # Grid reports sampling 0 for endpoint=True with one grid point (C17/F8): every block has end == start
-                ctx.violation("grid-single-point-endpoint-scan-cannot-be-partitioned", c, {"eager": results["eager"], "lazy": results["lazy"]})
-            else:
-                ctx.violation(f"{kind.split('[')[0]}-valid-chunks-rejected", c, {"eager": results["eager"]})
+            ctx.violation(f"{kind.split('[')[0]}-valid-chunks-rejected", c, {"eager": results["eager"]})
         # split and re-join: forward slices / blocks along the first ensemble axis, concatenated, are the original object
         if c["kind"] == "images" and isinstance(chunks, tuple) and chunks and isinstance(chunks[0], tuple):
             from abtem.array import concatenate
@@ -451,6 +468,35 @@ class C19(Property):
                 if r[False] != r[True]:
                     ctx.violation("array-eager-partition-args-rejects-unvalidated-chunks", c, {"chunks": repr(ch), "eager": r[False], "lazy": r[True]})
                     break
+
+    def oracle(self, ctx: Ctx, c):
+        """zero-size chunks: CustomScan and AtomsEnsemble do not support empty blocks (recorded); the recorded sub-case is re-derived —
+        the failure has the recorded form AND the same ensemble with the zero-size chunks removed passes — before its key is used"""
+        ch = c.get("chunks")
+        has_zero = isinstance(ch, list) and any(isinstance(cs, list) and 0 in cs for cs in ch)
+        if not has_zero or c["kind"] not in ("custom", "atoms_ensemble", "probe"):
+            return self.oracle_inner(ctx, c)
+        before = len(ctx.violations)
+        self.oracle_inner(ctx, c)
+        new = ctx.violations[before:]
+        if not new:
+            return
+        c2 = dict(c, chunks=[[x for x in cs if x != 0] for cs in ch])
+        probe = Ctx(self.id, ctx.tier, ctx.seed)
+        self.oracle_inner(probe, c2)
+        if probe.violations:
+            return  # fails without the zero-size chunks too: not the recorded class, keep what was reported
+        kind = c["kind"] if c["kind"] != "probe" else (c.get("scan") or {}).get("kind", "probe")
+        txt = json.dumps(jsonable([v["detail"] for v in new]))
+        recorded = {
+            "custom": (any(isinstance(v["detail"], dict) and "block_shape" in v["detail"] and 0 in v["detail"].get("expected", [])
+                           and len(v["detail"]["block_shape"]) < len(v["detail"]["expected"]) for v in new),
+                       "custom-zero-size-chunk-block-is-unscanned-sentinel"),
+            "atoms_ensemble": ("index_error" in txt, "atoms_ensemble-zero-size-chunk-index-error"),
+        }.get(kind)
+        if recorded and recorded[0]:
+            del ctx.violations[before:]
+            ctx.violation(recorded[1], c, {"observed": [v["key"] for v in new], "detail": new[0]["detail"]})
 
     def conformance(self, ctx: Ctx):
         for _ in range(ctx.n(120, 2500)):
